@@ -426,12 +426,12 @@ func (w *MultiDB) Close() {
 
 type C09Arg struct {
 	SameName bool
-	Gated  bool
-	Kinds  []string
-	Lists  []string
-	Depth  int
-	Shards int
-	Shard  int
+	Gated    bool
+	Kinds    []string
+	Lists    []string
+	Depth    int
+	Shards   int
+	Shard    int
 }
 
 func (a C09Arg) Name() string {
